@@ -78,7 +78,15 @@ func (x *DotLookup) Visit(v func(Expression)) {
 }
 
 func (x *DotLookup) String() string {
+	// two consecutive integer lookups need a separator, otherwise foo.0.1 is lexed as foo . 0.1
+	if inner, ok := x.Container.(*DotLookup); ok && isDigits(inner.Lookup) && isDigits(x.Lookup) {
+		return fmt.Sprintf("%s .%s", x.Container.String(), x.Lookup)
+	}
 	return fmt.Sprintf("%s.%s", x.Container.String(), x.Lookup)
+}
+
+func isDigits(s string) bool {
+	return s != "" && strings.IndexFunc(s, func(r rune) bool { return r < '0' || r > '9' }) == -1
 }
 
 type ArrayLookup struct {
